@@ -189,6 +189,43 @@ def c07_reaction_knock_out(E):
         same(E, before, observe(m), "restored-on-context-exit", what="Reaction.knock_out")
 
 
+def c07_repeat(E, shapes=None, w=1):
+    """knock-outs that meet state left by earlier ones: the gene already reports non-functional (public setter),
+    the gene was knocked out before and the user re-opened the reactions, the same gene is listed twice"""
+    env.for_path(E)
+    shapes = shapes if shapes is not None else [s for s in SHAPES if _ng(s) <= 3][::2]
+    rules = [instantiate(shapes[E.choice("shape0", len(shapes))], GENES), ("or", "g0", "g2"), None]
+    m, orig = build(E, rules, w=w)
+    genes = sorted(g.id for g in m.genes)
+    pre = E.pick("earlier_state", ["flag-already-False-by-setter", "knocked-out-before-then-bounds-reopened",
+                                   "gene-listed-twice"])
+    api = E.pick("api", ["Gene.knock_out", "knock_out_model_genes(ids)"])
+    ko = {g: E.flag("ko_" + g) for g in genes}
+    chosen = [g for g in genes if ko[g]]
+    if not chosen:
+        return
+    absent = set(chosen)
+    E.note(rules=[str(r) for r in rules], api=api, earlier_state=pre, knocked=chosen)
+
+    def apply(lst):
+        if api == "Gene.knock_out":
+            for g in lst:
+                m.genes.get_by_id(g).knock_out()
+        else:
+            knock_out_model_genes(m, list(lst))
+    if pre == "flag-already-False-by-setter":
+        m.genes.get_by_id(chosen[0]).functional = False
+        apply(chosen)
+    elif pre == "knocked-out-before-then-bounds-reopened":
+        apply(chosen[:1])
+        for r in m.reactions:
+            r.bounds = orig[r.id]
+        apply(chosen)
+    else:
+        apply(chosen + chosen[:1])
+    check_state(E, m, rules, orig, absent, "")
+
+
 def c07_thorough(E):
     return c07_knockout(E, shapes=SHAPES, ngenes=4, max_rules=2, w=None, all_orders=True)
 
@@ -201,6 +238,11 @@ HARNESSES = [
              "symbolic original bounds in [-10,10] not (0,0), the others at (-5,7)"),
     H("c07_thorough", c07_thorough, tiers=("thorough",), thorough=dict(max_paths=3000000, time_budget=540),
       bounds="1-2 ruled reactions from all 16 shapes over 4 genes, all orders (<=3 genes), all original bounds symbolic"),
+    H("c07_repeat", c07_repeat, quick=dict(max_paths=30000, time_budget=40),
+      thorough=dict(max_paths=30000, time_budget=60),
+      bounds="7 shapes next to a fixed rule; every non-empty subset of genes; the first knocked gene already flagged "
+             "non-functional through the setter / knocked out before with the reactions re-opened by the user / listed twice; "
+             "Gene.knock_out and knock_out_model_genes"),
     H("c07_reaction_knock_out", c07_reaction_knock_out, quick=dict(max_paths=2000, time_budget=20),
       thorough=dict(max_paths=2000, time_budget=30), bounds="3 reactions + exchange, symbolic bounds, in/out of a context"),
 ]
